@@ -156,11 +156,11 @@ Definition lens_self (ifu : bool) (x y : R) : val :=
 (* the arguments the data likelihood receives for sharp hyper-parameters *)
 Definition data_args (ddt dd dl beta : R) (ifu : bool) (lam lifu al be g x y kap mu : R) : list val * list (string * val) :=
   let l := lambda_lens ifu lam lifu al be x y in
-  ([num (ddt * (l * (1 - kap))); num (dd * (1 + g) / 2)],
+  ([VArr [num (ddt * (l * (1 - kap)))]; num (dd * (1 + g) / 2)],      (* the line-of-sight draw has size=1: Ddt and the magnitude are 1-element arrays *)
    [("beta_dsp", num beta);
     ("kin_scaling", K (dict [("lambda_mst", num l); ("gamma_ppn", num g)]));
     ("sigma_v_sys_error", VNone);
-    ("mu_intrinsic", num (mu + dl + 5 * log10 (l * (1 - kap))));
+    ("mu_intrinsic", VArr [num (mu + dl + 5 * log10 (l * (1 - kap)))]);
     ("gamma_pl", VInt 2);
     ("lambda_mst", num l)]).
 
